@@ -722,3 +722,36 @@ func TestC05_R_ConcurrentFirstRangeReadsOnAWideNode(t *testing.T) {
 		}
 	}
 }
+
+// A node that records FileSize 0 (and nothing else) over empty dag-pb children: its length is on record - asking for the
+// end, or positioning a read at the end, requests none of the children.
+func TestC05_R_RecordedZeroLengthNeedsNoBlocks(t *testing.T) {
+	empty := func(i int) *mnode {
+		return &mnode{HasData: true, UFS: &ufsFields{Type: 2, FileSize: u64p(0), Mode: u64p(uint64(0o600 + i))}}
+	}
+	root := &mnode{HasData: true, UFS: &ufsFields{Type: 2, FileSize: u64p(0)}}
+	for i := 0; i < 3; i++ {
+		root.Links = append(root.Links, mlink{Tsize: i64p(8), Child: empty(i)})
+	}
+	st := NewStore()
+	ls := st.LinkSystem()
+	rc, err := root.store(st, ls)
+	if err != nil {
+		t.Fatal(err)
+	}
+	rn, err := loadReified(ls, rc, "unixfs")
+	if err != nil {
+		t.Fatal(err)
+	}
+	st.ResetLogs()
+	rs, err := rn.(datamodel.LargeBytesNode).AsLargeBytes()
+	if err != nil {
+		t.Fatal(err)
+	}
+	if end, err := rs.Seek(0, io.SeekEnd); err != nil || end != 0 {
+		t.Fatalf("C05: Seek(0, End) on a node recording FileSize 0 = %d, %v", end, err)
+	}
+	if log := st.ReadLog(); len(log) != 0 {
+		t.Fatalf("C05: asking a node that records FileSize 0 for its end requested %d blocks (%v): the length is on record", len(log), shortCids(log))
+	}
+}
